@@ -286,6 +286,26 @@ func c20Instances() []c20Inst {
 		}
 	}
 	out = append(out, c20Inst{code: "a, b = b, a", must: set(), mustNot: set(5, 7, 8, 13, 14, 15, 16, 19, 20, 21), family: "assignment"})
+	// two targets, two values: a self-assignment only if every target gets itself
+	nm := []string{"a", "b", "c"}
+	for _, l1 := range nm {
+		for _, l2 := range nm {
+			if l1 == l2 {
+				continue
+			}
+			for _, r1 := range nm {
+				for _, r2 := range nm {
+					in := c20Inst{code: l1 + ", " + l2 + " = " + r1 + ", " + r2, must: set(), mustNot: set(5, 7, 8, 13, 14, 15, 16, 19, 21), family: "multiple-assignment"}
+					if l1 == r1 && l2 == r2 {
+						in.must[20] = true
+					} else {
+						in.mustNot[20] = true
+					}
+					out = append(out, in)
+				}
+			}
+		}
+	}
 	return out
 }
 
